@@ -207,6 +207,13 @@ GRAPHS = [
         '/d/b.ts': 'import { d } from "./sub/d.ts"; export const b = "b" + d;',
         '/d/c.ts': 'import { d } from "./sub/../sub/d.ts"; export const c = "c" + d;',
         '/d/sub/d.ts': 'globalThis.__dRuns = (globalThis.__dRuns || 0) + 1; export const d = "d";'}, 'bd|cd|1'),
+    # a binding re-exported through TWO hops stays a live view of the exporter's variable
+    ('reexport-two-hops', '/d/main.ts', {
+        '/d/main.ts': 'import { x as x2, bump } from "./a.ts"; import { x as x1 } from "./b.ts"; import { x as x0 } from "./c.ts"; import * as A from "./a.ts"; '
+                      'const r = [[x0, x1, x2, A.x].join("/")]; bump(); r.push([x0, x1, x2, A.x].join("/")); r.join(" ")',
+        '/d/a.ts': 'export { x, bump } from "./b.ts";',
+        '/d/b.ts': 'export { x, bump } from "./c.ts";',
+        '/d/c.ts': 'export let x = 1; export function bump() { x = x + 1 }'}, '1/1/1/1 2/2/2/2'),
     ('reexport', '/d/main.ts', {
         '/d/main.ts': 'import { x, inc } from "./re.ts"; inc(); inc(); x',
         '/d/re.ts': 'export { x, inc } from "./deep/impl.ts";',
